@@ -59,7 +59,9 @@ RULE = (
     "about 30% of meshes have unreferenced vertices and 30% unordered cells, 0-3 initial data children (full, short, "
     "too long, value-less), then 2-7 operations (remove_vertices 35, remove_cells 12, set values 15, add_data 10, masked "
     "copy 13, re-open 15) with index sets that are repeated, unsorted, negative, first/last/all-but-one, touching no cell, "
-    "empty or out of range; a final re-open always follows. non-trivial = an executed removal or masked copy that drops at "
+    "empty or out of range; value arrays of set / add operations may be 2-D ((n,1), (1,n), (n,k), (k,n)); a final re-open "
+    "always follows. A second stream copies one data child (all kinds) with an arbitrary mask onto its own parent or another "
+    "object of equal, smaller or larger size. non-trivial = an executed removal or masked copy that drops at "
     "least one cell, or a vertex removal on a cell object that touches no cell"
 )
 LEVEL_TEXT = (
